@@ -11,7 +11,11 @@ import (
 )
 
 func TestDump(t *testing.T) {
-	prog, err := core.Load("/repo", "", nil)
+	dir := os.Getenv("REPO")
+	if dir == "" {
+		dir = "/repo"
+	}
+	prog, err := core.Load(dir, "", nil)
 	if err != nil {
 		t.Fatal(err)
 	}
